@@ -155,13 +155,15 @@ pub fn run_set(ctx: &Ctx, texts: &[String], facts: &[FileFacts]) {
 }
 
 pub fn run(ctx: &Ctx, replay: Option<&str>) {
+    // a replay input that carries a set re-runs just that set; otherwise (the check passes the
+    // operation name only) the whole area is re-run from the recorded seed
     if let Some(rp) = replay {
         if let Some((texts, _)) = parse_set(rp) {
             // facts are recomputed from a debug assembly of each text
             let facts: Vec<FileFacts> = texts.iter().map(|t| facts_from_text(t)).collect();
             run_set(ctx, &texts, &facts);
+            return;
         }
-        return;
     }
     let mut r = Rng::new(ctx.seed).fork(21);
     for round in 0..ctx.n(450, 5000) {
